@@ -290,3 +290,23 @@ def process_ept_map_result(c):
         c.returns(first)
     else:
         c.no_normal_return()
+
+
+@REG.variant("dpapi_ng._epm.EptMap.unpack", "arbitrary-bytes", props=["C12"])
+def eptmap_unpack_any(c):
+    """The ept_map request decoder on any byte string: work and copying proportional to the length (same potential argument as
+    for the reply: every completed floor consumes at least 3 bytes and costs at most 3 steps)."""
+    class_param(c, "EptMap")
+    data = c.param("data", T.Bytes)
+    n = Z(c.len(data))
+    c.raises("Exception", when=None)
+    c.raises_only({"Exception"})
+    c.ghost_bound("ticks", 2 * n + 16, on_raise=2 * n + 16)
+    c.ghost_bound("copied", n + 64)
+    L = lambda v: Z(c.len(v))  # noqa: E731
+
+    def inner(s):
+        e = s.at_entry
+        return [Z(s.ticks) + L(s.view) <= Z(e.ticks) + L(e.view), Z(s.copied) + L(s.view) <= Z(e.copied) + L(e.view), L(s.view) <= L(e.view)]
+
+    c.loop(0, invariant=inner, havoc={"tower": _opaque_list})
